@@ -1019,6 +1019,14 @@ int sx127x_fsk_ook_tx_set_for_transmission_with_address(const uint8_t *data, uin
   return sx127x_fsk_ook_tx_set_for_transmission_with_remaining(packet_length, device);
 }
 
+// the timer coefficients are 8 bit wide
+static uint8_t sx127x_timer_coefficient(float value) {
+  if (value > 255.0f) {
+    return 255;
+  }
+  return (uint8_t) value;
+}
+
 int sx127x_fsk_ook_tx_start_beacon(const uint8_t *data, uint8_t data_length, uint32_t interval_ms, sx127x *device) {
   CHECK_FSK_OOK_MODULATION(device);
   if (device->fsk_ook_format != SX127X_FIXED) {
@@ -1040,29 +1048,30 @@ int sx127x_fsk_ook_tx_start_beacon(const uint8_t *data, uint8_t data_length, uin
   if (interval_ms <= 255 * p1 * 2) {
     timer1_resolution = p1;
     timer2_resolution = p1;
-    timer1_coefficient = (uint8_t) (interval_ms / p1 / 2);
+    timer1_coefficient = sx127x_timer_coefficient(interval_ms / p1 / 2);
   } else if (interval_ms <= (255 * p2 + 255 * p1)) {
     timer1_resolution = p2;
     timer2_resolution = p1;
-    timer1_coefficient = (uint8_t) (interval_ms / p2);
+    timer1_coefficient = sx127x_timer_coefficient(interval_ms / p2);
   } else if (interval_ms <= 255 * p2 * 2) {
     timer1_resolution = p2;
     timer2_resolution = p2;
-    timer1_coefficient = (uint8_t) (interval_ms / p2 / 2);
-  } else if (interval_ms <= (255 * p3 + 255 * p1)) {
-    timer1_resolution = p3;
-    timer2_resolution = p1;
-    timer1_coefficient = (uint8_t) (interval_ms / p3);
+    timer1_coefficient = sx127x_timer_coefficient(interval_ms / p2 / 2);
   } else if (interval_ms <= (255 * p3 + 255 * p2)) {
     timer1_resolution = p3;
-    timer2_resolution = p2;
-    timer1_coefficient = (uint8_t) (interval_ms / p3);
+    timer1_coefficient = sx127x_timer_coefficient(interval_ms / p3);
+    // timer2 counts what is left in the finest resolution that can hold it
+    if (interval_ms - timer1_resolution * timer1_coefficient <= 255 * p1) {
+      timer2_resolution = p1;
+    } else {
+      timer2_resolution = p2;
+    }
   } else {
     timer1_resolution = p3;
     timer2_resolution = p3;
-    timer1_coefficient = (uint8_t) (interval_ms / p3 / 2);
+    timer1_coefficient = sx127x_timer_coefficient(interval_ms / p3 / 2);
   }
-  timer2_coefficient = (uint8_t) ((interval_ms - timer1_resolution * timer1_coefficient) / timer2_resolution);
+  timer2_coefficient = sx127x_timer_coefficient((interval_ms - timer1_resolution * timer1_coefficient) / timer2_resolution);
 
   uint8_t timer_resolution = 0b00000000;
   if (timer1_resolution == p1) {
